@@ -14,6 +14,7 @@ from __future__ import annotations
 import ast
 import itertools
 import operator
+import threading
 from fractions import Fraction
 
 from . import sym, uflsem
@@ -94,6 +95,207 @@ class BoundMethod:
 
     def __call__(self, *args, **kwargs):
         return self.interp.call_function(self.fi, list(args), kwargs, self_obj=self.self_obj)
+
+
+class _GenExit(BaseException):
+    """raised at the suspended yield of a lazy generator that is closed before it finished"""
+
+
+class _GenState:
+    """State of one lifted generator: its body is interpreted in a thread of its own, which holds the interpreter
+    exactly while the consumer waits in next() - the two never run at the same time, so this is plain coroutine
+    hand-over (statements of producer and consumer interleave as they do in Python), not concurrency."""
+
+    def __init__(self, ip, clo, args, kwargs):
+        self.ip, self.clo, self.args, self.kwargs = ip, clo, args, kwargs
+        self.thread = None
+        self.done = False
+        self.running = False
+        self.closing = False
+        self.to_gen = threading.Semaphore(0)
+        self.to_consumer = threading.Semaphore(0)
+        self.out = None
+        self.inject = None
+        self.saved = (0, [])
+        self.base = (0, 0)
+
+    def resume(self, exc=None):
+        if self.done:
+            if exc is not None:
+                raise exc
+            raise StopIteration
+        if self.running:
+            raise Unsupported("generator already executing")
+        ip = self.ip
+        if self.thread is None and exc is not None:
+            self.done = True
+            raise exc
+        self.inject = exc
+        ys = ip.__dict__.setdefault("_yields", [])
+        self.base = (ip.depth, len(ys))
+        d, mine = self.saved
+        ip.depth += d
+        ys.extend(mine)
+        self.running = True
+        if self.thread is None:
+            self.thread = threading.Thread(target=self._run, daemon=True)
+            self.thread.start()
+        else:
+            self.to_gen.release()
+        self.to_consumer.acquire()
+        self.running = False
+        kind, v = self.out
+        self.out = None
+        if kind == "yield":
+            return v
+        self.done = True
+        if kind == "return":
+            raise StopIteration(v)
+        raise v
+
+    def _run(self):
+        ip = self.ip
+        ip._yields.append(self)
+        try:
+            out = ("return", ip._call_closure(self.clo, self.args, self.kwargs))
+        except _GenExit:
+            out = ("return", None)
+        except BaseException as e:  # handed to the consumer, which re-raises it from next()
+            out = ("raise", e)
+        d0, y0 = self.base
+        del ip._yields[y0:]
+        ip.depth = d0
+        self.out = out
+        self.to_consumer.release()
+
+    def suspend(self, v):
+        ip = self.ip
+        d0, y0 = self.base
+        self.saved = (ip.depth - d0, ip._yields[y0:])
+        ip.depth = d0
+        del ip._yields[y0:]
+        self.out = ("yield", v)
+        self.to_consumer.release()
+        self.to_gen.acquire()
+        if self.closing:
+            raise _GenExit()
+        exc, self.inject = self.inject, None
+        if exc is not None:
+            raise exc
+        return None
+
+    def close(self):
+        if self.done or self.thread is None:
+            self.done = True
+            return
+        if self.running:
+            return
+        self.closing = True
+        try:
+            self.resume(None)
+        except BaseException:
+            pass
+        self.done = True
+
+
+class LazyGen:
+    """generator object of a lifted generator function"""
+
+    def __init__(self, ip, clo, args, kwargs):
+        self._st = _GenState(ip, clo, args, kwargs)
+
+    def __iter__(self):
+        return self
+
+    def __next__(self):
+        return self._st.resume(None)
+
+    def throw(self, exc):
+        return self._st.resume(exc)
+
+    def close(self):
+        self._st.close()
+
+    def __del__(self):
+        try:
+            self._st.close()
+        except BaseException:
+            pass
+
+
+class _CtxMgr:
+    """what a @contextmanager function returns: enter runs the generator to its yield, exit runs the rest"""
+
+    def __init__(self, gen):
+        self.gen = gen
+
+    def enter(self):
+        try:
+            return next(self.gen)
+        except StopIteration:
+            raise LiftRaise("RuntimeError: generator didn't yield")
+
+    def exit(self, exc):
+        if exc is None:
+            try:
+                next(self.gen)
+            except StopIteration:
+                return False
+            raise LiftRaise("RuntimeError: generator didn't stop")
+        try:
+            self.gen.throw(exc)
+        except StopIteration:
+            return True  # the generator handled the exception: the with statement suppresses it
+        except BaseException as e2:
+            if e2 is exc:
+                return False
+            raise
+        raise LiftRaise("RuntimeError: generator didn't stop after throw()")
+
+
+class NumTypecodes(int):
+    """Expr._ufl_num_typecodes_ in a world where a type's typecode is its name: `[x] * n` is a table with one
+    entry per type, indexed by typecode"""
+
+
+class TypecodeTable(dict):
+    """`[default] * Expr._ufl_num_typecodes_`: one slot per registered type, addressed by the type's typecode"""
+
+    __lift_host__ = True
+
+    def __init__(self, default, n):
+        super().__init__()
+        self.default, self.n = default, n
+
+    def __missing__(self, k):
+        if isinstance(k, str):
+            return self.default
+        raise LiftRaise(f"TypeError: typecode table indexed by {k!r}")
+
+    def __len__(self):
+        return self.n
+
+
+class _Deque(list):
+    """collections.deque over the list model (same order, both ends)"""
+
+    def appendleft(self, x):
+        self.insert(0, x)
+
+    def popleft(self):
+        if not self:
+            raise LiftRaise("IndexError: pop from an empty deque")
+        return self.pop(0)
+
+    def extendleft(self, xs):
+        for x in xs:
+            self.insert(0, x)
+
+    def rotate(self, n=1):
+        if self:
+            n %= len(self)
+            self[:] = self[-n:] + self[:-n]
+
 
 
 class Env:
@@ -188,9 +390,11 @@ class Interp:
             args = [self_obj] + list(args)
         return self.call_closure(clo, list(args), kwargs or {})
 
-    # generator functions (opt-in, `eager_generators = True`): run eagerly, a call returns the list of yielded
-    # values.  Sound where the consumer does not change the state that the generator reads between two yields
-    # (the traversal / extraction helpers of ufl.corealg.traversal and ufl.algorithms.analysis).
+    # generator functions: a call returns a LazyGen whose body is interpreted step by step as the consumer asks for
+    # values (Python's own interleaving of producer and consumer; @contextmanager functions become context managers).
+    # With `eager_generators = True` a call runs the body at once and returns the list of yielded values - cheaper,
+    # and sound where the consumer does not change the state that the generator reads between two yields (the
+    # traversal / extraction helpers of ufl.corealg.traversal and ufl.algorithms.analysis).
     eager_generators = False
     _GEN_CACHE: dict = {}
 
@@ -213,28 +417,45 @@ class Interp:
         return r
 
     def e_Yield(self, e, env, mod):
-        if not self.eager_generators or not getattr(self, "_yields", None):
+        ys = self.__dict__.get("_yields")
+        if not ys:
             raise Unsupported("expression Yield: (yield expr)")
         v = self.eval(e.value, env, mod) if e.value is not None else None
-        self._yields[-1].append(v)
-        return None
+        if isinstance(ys[-1], list):
+            ys[-1].append(v)
+            return None
+        return ys[-1].suspend(v)
 
     def e_YieldFrom(self, e, env, mod):
-        if not self.eager_generators or not getattr(self, "_yields", None):
+        ys = self.__dict__.get("_yields")
+        if not ys:
             raise Unsupported("expression YieldFrom")
-        for v in self.eval(e.value, env, mod):
-            self._yields[-1].append(v)
+        src = self.eval(e.value, env, mod)
+        for v in src if isinstance(src, LazyGen) else self.iterate(src, e.value):
+            if isinstance(ys[-1], list):
+                ys[-1].append(v)
+            else:
+                ys[-1].suspend(v)
         return None
 
+    @staticmethod
+    def _is_contextmanager(node):
+        return any(norm(d).split(".")[-1] == "contextmanager" for d in getattr(node, "decorator_list", ()))
+
     def call_closure(self, clo: Closure, args, kwargs):
-        if self.eager_generators and self._is_generator(clo.node):
-            ys = self.__dict__.setdefault("_yields", [])
-            ys.append([])
-            try:
-                self._call_closure(clo, args, kwargs)
-                return ys[-1]
-            finally:
-                ys.pop()
+        if self._is_generator(clo.node):
+            ctx = self._is_contextmanager(clo.node)
+            if self.eager_generators and not ctx:
+                ys = self.__dict__.setdefault("_yields", [])
+                ys.append([])
+                n = len(ys)
+                try:
+                    self._call_closure(clo, args, kwargs)
+                    return ys[n - 1]
+                finally:
+                    del ys[n - 1 :]
+            g = LazyGen(self, clo, list(args), dict(kwargs))
+            return _CtxMgr(g) if ctx else g
         return self._call_closure(clo, args, kwargs)
 
     def _call_closure(self, clo: Closure, args, kwargs):
@@ -342,7 +563,9 @@ class Interp:
             c = self.truth(self.eval(st.test, env, mod), st.test)
             self.exec_block(st.body if c else st.orelse, env, mod)
         elif isinstance(st, ast.For):
-            it = self.iterate(self.eval(st.iter, env, mod), st.iter)
+            it = self.eval(st.iter, env, mod)
+            if not isinstance(it, LazyGen):
+                it = self.iterate(it, st.iter)
             broke = False
             for x in it:
                 self.assign(st.target, x, env, mod)
@@ -389,30 +612,52 @@ class Interp:
             self._local_import(st, env, mod)
         elif isinstance(st, ast.Try):
             try:
-                self.exec_block(st.body, env, mod)
-            except LiftRaise as e:
-                handled = False
-                for h in st.handlers:
-                    hn = norm(h.type) if h.type is not None else ""
-                    if not hn or hn.split(".")[-1] in e.what or hn in ("Exception", "BaseException"):
-                        if h.name:
-                            env.set(h.name, Obj("exception", what=e.what))
-                        self.exec_block(h.body, env, mod)
-                        handled = True
-                        break
-                if not handled:
-                    raise
-            else:
-                self.exec_block(st.orelse, env, mod)
-            finally:
-                pass
+                try:
+                    self.exec_block(st.body, env, mod)
+                except LiftRaise as e:
+                    handled = False
+                    for h in st.handlers:
+                        hn = norm(h.type) if h.type is not None else ""
+                        if not hn or hn.split(".")[-1] in e.what or hn in ("Exception", "BaseException"):
+                            if h.name:
+                                env.set(h.name, Obj("exception", what=e.what))
+                            self.exec_block(h.body, env, mod)
+                            handled = True
+                            break
+                    if not handled:
+                        raise
+                else:
+                    self.exec_block(st.orelse, env, mod)
+            except AnalysisError:
+                raise  # the analysis is giving up: nothing further is interpreted
+            except BaseException:
+                self.exec_block(st.finalbody, env, mod)
+                raise
             self.exec_block(st.finalbody, env, mod)
         elif isinstance(st, ast.With):
+            entered = []
             for item in st.items:
                 v = self.eval(item.context_expr, env, mod)
+                if isinstance(v, _CtxMgr):
+                    entered.append(v)
+                    v = v.enter()
                 if item.optional_vars is not None:
                     self.assign(item.optional_vars, v, env, mod)
-            self.exec_block(st.body, env, mod)
+            try:
+                self.exec_block(st.body, env, mod)
+            except AnalysisError:
+                raise
+            except LiftRaise as ex:
+                if not any([cm.exit(ex) for cm in reversed(entered)]):
+                    raise
+            except BaseException:
+                # return / break / continue leave the block normally
+                for cm in reversed(entered):
+                    cm.exit(None)
+                raise
+            else:
+                for cm in reversed(entered):
+                    cm.exit(None)
         elif isinstance(st, ast.Delete):
             pass
         elif isinstance(st, (ast.Global, ast.Nonlocal)):
@@ -544,6 +789,8 @@ class Interp:
         f = _BINOPS.get(op)
         if f is None:
             raise Unsupported(f"operator {op.__name__}")
+        if op is ast.Mult and isinstance(a, list) and len(a) == 1 and isinstance(b, NumTypecodes):
+            return TypecodeTable(a[0], int(b))
         _alias = getattr(self, "pytype_alias", None) or {}
         _is_t = lambda x: isinstance(x, (ClassInfo, TypeUnion, ModelledClass, type, _NumTower)) or (callable(x) and not isinstance(x, Obj) and (x in _PYTYPES or x in _alias))  # noqa: E731
         if op is ast.BitOr and (_is_t(a) or _is_t(b)) and not isinstance(a, (set, dict)) and not isinstance(b, (set, dict)):
@@ -803,6 +1050,25 @@ class Interp:
             raise Unsupported(f"class attribute {obj.name}.{attr}")
         if isinstance(obj, bytes) and attr in _SAFE_METHODS["bytes"]:
             return getattr(obj, attr)
+        if isinstance(obj, _Deque) and attr in ("appendleft", "popleft", "extendleft", "rotate"):
+            return getattr(obj, attr)
+        if isinstance(obj, tuple) and hasattr(type(obj), "_lifted_class"):
+            if attr in type(obj)._fields:
+                return getattr(obj, attr)
+            r = self.prog.lookup(type(obj)._lifted_class, attr)
+            if isinstance(r, FuncInfo):
+                decos = r.decorators()
+                if "property" in decos:
+                    return self.call_function(r, [], {}, self_obj=obj)
+                if "staticmethod" in decos:
+                    return Closure(r.node, Env(), r.module, self, cls=r.cls, name=f"{r.cls.name}.{attr}")
+                return BoundMethod(self, r, obj)
+            if attr == "_replace":
+                return obj._replace
+            if attr == "_asdict":
+                return obj._asdict
+            if attr == "_fields":
+                return type(obj)._fields
         if isinstance(obj, (tuple, list, dict, str, set, frozenset)):
             tn = next((n for n in ("tuple", "list", "dict", "str", "set", "frozenset") if isinstance(obj, __builtins__[n] if isinstance(__builtins__, dict) else getattr(__builtins__, n))), type(obj).__name__)
             if attr in _SAFE_METHODS.get(tn, ()):
@@ -1131,10 +1397,94 @@ class Interp:
         init = self.prog.lookup(cls, "__init__")
         if isinstance(init, FuncInfo):
             self.call_function(init, list(args), dict(kwargs), self_obj=o)
+        elif self.is_dataclass(cls):
+            for name, value in self.bind_fields(cls, args, kwargs):
+                o.attrs[name] = value
+            post = self.prog.lookup(cls, "__post_init__")
+            if isinstance(post, FuncInfo):
+                self.call_function(post, [], {}, self_obj=o)
         elif args or kwargs:
             raise Unsupported(f"{cls.name}() takes no arguments")
         o.attrs["__initialised_from_source__"] = True
         return o
+
+    # ---- record classes: NamedTuple / dataclass / stand-alone helper classes of the package ----------------------
+    _PLAIN_BASES = ("object", "NamedTuple", "typing.NamedTuple", "Generic")
+
+    @staticmethod
+    def is_dataclass(cls):
+        return any(norm(d.func if isinstance(d, ast.Call) else d).split(".")[-1] == "dataclass" for k in cls.mro() for d in k.node.decorator_list)
+
+    def record_kind(self, cls):
+        """'namedtuple' | 'dataclass' | 'plain' for a helper class that carries no UFL meaning of its own (no
+        repository base class, no repository subclass, not a registered UFL type, bases only object / NamedTuple):
+        such a class is interpreted from its source like any function.  None for everything else."""
+        cache = self.__dict__.setdefault("_record_kinds", {})
+        if id(cls) not in cache:
+            kind = None
+            ext = [b.split("[")[0] for b in cls.bases if isinstance(b, str)]
+            if not any(isinstance(b, ClassInfo) for b in cls.bases) and cls.ufl_type_kwargs is None and all(b in self._PLAIN_BASES for b in ext) and not getattr(cls.module, "path", "").startswith("<"):
+                subclassed = self.__dict__.get("_subclassed")
+                if subclassed is None:
+                    subclassed = self._subclassed = {id(b) for c in self.prog.all_classes() for b in c.bases if isinstance(b, ClassInfo)}
+                if id(cls) not in subclassed:
+                    if any(b.endswith("NamedTuple") for b in ext):
+                        kind = "namedtuple"
+                    elif self.is_dataclass(cls):
+                        kind = "dataclass"
+                    elif "__init__" in cls.methods:
+                        kind = "plain"
+            cache[id(cls)] = kind
+        return cache[id(cls)]
+
+    def record_fields(self, cls):
+        """[(name, default expression | None)] of the annotated class-body fields, bases first"""
+        out = {}
+        for k in reversed(cls.mro()):
+            for st in k.node.body:
+                if isinstance(st, ast.AnnAssign) and isinstance(st.target, ast.Name) and "ClassVar" not in norm(st.annotation):
+                    out[st.target.id] = (st.value, k)
+        return [(n, v, k) for n, (v, k) in out.items()]
+
+    def bind_fields(self, cls, args, kwargs):
+        fields = self.record_fields(cls)
+        if len(args) > len(fields):
+            raise LiftRaise(f"TypeError: {cls.name}() takes {len(fields)} positional arguments but {len(args)} were given")
+        kwargs = dict(kwargs)
+        out = []
+        for i, (name, default, owner) in enumerate(fields):
+            if i < len(args):
+                if name in kwargs:
+                    raise LiftRaise(f"TypeError: {cls.name}() got multiple values for argument '{name}'")
+                out.append((name, args[i]))
+            elif name in kwargs:
+                out.append((name, kwargs.pop(name)))
+            elif default is not None:
+                if isinstance(default, ast.Call) and norm(default.func).split(".")[-1] == "field":
+                    kw = {k.arg: k.value for k in default.keywords}
+                    if "default_factory" in kw:
+                        out.append((name, self.call(self.eval(kw["default_factory"], Env(), owner.module), [], {}, default, owner.module)))
+                    elif "default" in kw:
+                        out.append((name, self.eval(kw["default"], Env(), owner.module)))
+                    else:
+                        raise LiftRaise(f"TypeError: {cls.name}() missing required argument '{name}'")
+                else:
+                    out.append((name, self.eval(default, Env(), owner.module)))
+            else:
+                raise LiftRaise(f"TypeError: {cls.name}() missing required argument '{name}'")
+        if kwargs:
+            raise LiftRaise(f"TypeError: {cls.name}() got an unexpected keyword argument '{next(iter(kwargs))}'")
+        return out
+
+    def make_namedtuple(self, cls, args, kwargs, node=None):
+        types = self.__dict__.setdefault("_nt_types", {})
+        if id(cls) not in types:
+            import collections
+
+            t = collections.namedtuple(cls.name, [n for n, _, _ in self.record_fields(cls)], rename=True)
+            t._lifted_class = cls
+            types[id(cls)] = t
+        return types[id(cls)](*[v for _, v in self.bind_fields(cls, args, kwargs)])
 
     def is_hashable_obj(self, x):
         k = self.obj_class(x)
@@ -1186,6 +1536,10 @@ class Interp:
                 return less or self.obj_eq(x, y, node)
             if name == "__ge__":
                 return not less
+        if name == "__eq__" and self.is_dataclass(k) and not any(kw.arg == "eq" and norm(kw.value) == "False" for d in k.node.decorator_list if isinstance(d, ast.Call) for kw in d.keywords):
+            if self.obj_class(y) is not k:
+                return NotImplemented
+            return all(self.obj_eq(x.attrs.get(n), y.attrs.get(n), node) for n, _, _ in self.record_fields(k))
         if name == "__eq__":
             return x is y
         if name == "__ne__":
@@ -1459,6 +1813,13 @@ class Interp:
     def call(self, f, args, kwargs, node, mod):
         if f is _b_isinstance:
             return self.isinstance_model(args[0], args[1], node)
+        if f is _b_getattr and len(args) in (2, 3) and isinstance(args[1], str):
+            try:
+                return self.getattr(args[0], args[1], node, mod)
+            except LiftRaise as ex:
+                if len(args) == 3 and "AttributeError" in ex.what:
+                    return args[2]
+                raise
         if f is BUILTINS["hasattr"] and len(args) == 2 and self.obj_class(args[0]) is not None:
             o, nm = args
             if nm in o.attrs:
@@ -1495,6 +1856,15 @@ class Interp:
             for x in items:
                 acc = self.call(args[0], [acc, x], {}, node, mod)
             return acc
+        if f is _ACCUMULATE and args:
+            fn = kwargs.get("func") if "func" in kwargs else (args[1] if len(args) > 1 else None)
+            out = []
+            items = list(self.iterate(args[0], node))
+            if kwargs.get("initial") is not None:
+                items.insert(0, kwargs["initial"])
+            for x in items:
+                out.append(x if not out else (self.binop(ast.Add, out[-1], x, node) if fn is None else self.call(fn, [out[-1], x], {}, node, mod)))
+            return out
         if f is _GROUPBY and args:
             # itertools.groupby: runs of *consecutive* items with equal keys, in order (eager)
             keyf = kwargs.get("key") if "key" in kwargs else (args[1] if len(args) > 1 else None)
@@ -1547,7 +1917,10 @@ class Interp:
         if isinstance(f, ClassInfo):
             if f.name in self.class_models:
                 return self.call(self.class_models[f.name], args, kwargs, node, mod)
-            if f.name in self.instantiable or "*" in self.instantiable:
+            kind = self.record_kind(f)
+            if kind == "namedtuple":
+                return self.make_namedtuple(f, args, kwargs, node)
+            if f.name in self.instantiable or "*" in self.instantiable or kind is not None:
                 return self.instantiate(f, args, kwargs)
             raise Unsupported(f"constructor {f.name}(...) has no semantic model ({norm(node)[:80]})")
         if isinstance(f, FuncInfo):
@@ -1693,6 +2066,25 @@ def _b_min(*a, **kw):
     return min(a, **kw)
 
 
+def _b_getattr(*a):  # interpreted in Interp.call (attribute lookup of the lifted object model)
+    raise Unsupported("getattr outside the interpreter")
+
+
+def _b_next(it, *default):
+    if isinstance(it, (list, tuple)):
+        # a generator expression (evaluated to a sequence): its first value
+        if it:
+            return it[0]
+    else:
+        try:
+            return next(it)
+        except StopIteration:
+            pass
+    if default:
+        return default[0]
+    raise LiftRaise("StopIteration")
+
+
 def _b_sorted(x, key=None, reverse=False):
     return sorted(_it(x), key=key, reverse=reverse)
 
@@ -1740,17 +2132,18 @@ BUILTINS = {
     **{n: Obj("exception_class", name=n) for n in ("ValueError", "NotImplementedError", "TypeError", "IndexError", "KeyError", "RuntimeError", "AssertionError", "ZeroDivisionError", "Exception", "AttributeError", "StopIteration")},
     "NotImplemented": NotImplemented,
     "print": lambda *a, **k: None,
-    "next": next,
+    "next": _b_next,
     "iter": iter,
     "callable": callable,
     "hasattr": lambda o, n: (n in o.attrs) if isinstance(o, Obj) else False,
-    "getattr": None,
+    "getattr": _b_getattr,
     "id": id,
     "type": lambda x: x.attrs.get("__class__") if isinstance(x, Obj) else type(x),
     "complex": lambda re=0, im=0: complex(re, im),
     "divmod": divmod,
     "round": round,
     "pow": pow,
+    "object": lambda: Obj("sentinel"),
 }
 
 class _NumTower:
@@ -1781,6 +2174,10 @@ def _GROUPBY(*a, **k):  # placeholder identity: interpreted in Interp.call (the 
     raise Unsupported("itertools.groupby outside the interpreter")
 
 
+def _ACCUMULATE(*a, **k):  # itertools.accumulate: interpreted in Interp.call
+    raise Unsupported("accumulate outside the interpreter")
+
+
 def _REDUCE(*a, **k):  # functools.reduce: interpreted in Interp.call (the function is lifted code or an operator function)
     raise Unsupported("functools.reduce outside the interpreter")
 
@@ -1805,6 +2202,8 @@ STDLIB = {
     "itertools.chain": _Chain(),
     "itertools.count": __import__("itertools").count,
     "itertools.groupby": _GROUPBY,
+    "itertools.accumulate": _ACCUMULATE,
+    "collections.deque": lambda x=(), maxlen=None: _Deque(_it(x)),
     "itertools.product": lambda *a, repeat=1: list(__import__("itertools").product(*[_it(x) for x in a], repeat=repeat)),
     "collections.defaultdict": __import__("collections").defaultdict,
     "functools.cmp_to_key": __import__("functools").cmp_to_key,
